@@ -120,12 +120,29 @@ def gen_case(seed, i):
                                         # patterns whose literal prefix is long / non-ASCII and that need a descent below it
                                         "*/**", "*/*/*", "a/**", "sub/**", "@W@/R1/żółw/**", "@W@/R1/日本/**", "@W@/R2/żółw/*/*", "@W@/R1/a+b/**"])]
         if rng.random() < 0.3:
-            opts["exclude"] = [rng.choice(["**/sub/**", "**/*.dat", "@W@/R1/a/**", "*", "**/b/*", "**/\\[q\\]/**", "*/*.txt", "**/żółw/**"])]
+            opts["exclude"] = [rng.choice(["**/sub/**", "**/*.dat", "@W@/R1/a/**", "*", "**/b/*", "**/\\[q\\]/**", "*/*.txt", "**/żółw/**",
+                                           # patterns that fully match one entry and are a *string* prefix of a sibling
+                                           # (a / a+b, d / d.e / dir w, x / x-y, f.t / f.txt)
+                                           "@W@/R1/a", "**/a", "**/d", "**/x", "**/f.t", "a", "@W@/R1/su"])]
     # a directory link sitting exactly at the depth limit (and one just inside it), when both options are on
     if "depth" in opts and opts["depth"] >= 1 and opts["L"] and rng.random() < 0.7:
         at = [d for d in dirs if d.count("/") == opts["depth"] - 1] or [roots[0]]
         tgt = [d for d in dirs if any(f.startswith(d + "/") for f in files)] or dirs
         w.add_symlink(rng.choice(at) + "/dl_at_limit", "@ROOT@/" + rng.choice(tgt))
+    if opts["L"] and rng.random() < 0.5:
+        # a followed link whose target is a hidden file, or lies inside a hidden directory: the target
+        # is an entry like any other and --hidden decides about it
+        hid = [f for f in files if "/." in f]
+        if not hid:
+            d = rng.choice(dirs)
+            fam += 1
+            hid = [d + "/" + rng.choice([".hid.txt", ".k"])]
+            w.add_file(hid[0], {"fam": fam, "len": rng.choice([1, 5, 50]), "flips": []})
+            files.append(hid[0])
+        t = rng.choice(hid)
+        vis = [d for d in dirs if "/." not in d] or dirs
+        d = rng.choice(vis)
+        w.add_symlink(d + "/l_hid", rng.choice([os.path.relpath(t, d), "@ROOT@/" + t]))
     if opts.get("i") and not opts.get("regex") and rng.random() < 0.6:
         # case-insensitive matching of cwd-relative patterns whose case differs from the names
         k = rng.choice(["path", "exclude"])
